@@ -219,10 +219,13 @@ static void utf8_unit(uint64_t u) {
   const char* what;
   uint8_t* r = region(zero_cap);
   switch (u) {
-    case 0: len = G + 1; want = G + 1; what = "2^32+1 zero bytes (2^32+1 scalar values U+0000)"; break;
+    /* a multi-byte scalar that STARTS exactly 2^32 (.. 2^32+3) bytes before the end: a remaining-length that is reduced mod 2^32 runs out inside it */
+    case 0: len = G + 8; r[8] = 0xc3; r[9] = 0xa9; want = G + 7; what = "2^32+8 bytes, U+00E9 starting 2^32 bytes before the end"; break;
     case 1: len = G + 8; r[G - 1] = 0xc3; r[G] = 0xa9; want = G + 7; what = "2^32+8 bytes, U+00E9 straddling offset 2^32"; break;
     case 2: len = G + 8; r[G + 3] = 0xff; want = 0; what = "2^32+8 bytes with an invalid byte at offset 2^32+3"; break;
-    default: len = G - 1; r[G - 2] = 0xf0; want = 0; what = "2^32-1 bytes ending in a truncated 4-byte sequence"; break;
+    case 3: len = G - 1; r[G - 2] = 0xf0; want = 0; what = "2^32-1 bytes ending in a truncated 4-byte sequence"; break;
+    case 4: len = G + 8; r[7] = 0xe2; r[8] = 0x82; r[9] = 0xac; want = G + 6; what = "2^32+8 bytes, U+20AC starting 2^32+1 bytes before the end"; break;
+    default: len = G + 8; r[5] = 0xf0; r[6] = 0x9f; r[7] = 0x98; r[8] = 0x80; want = G + 5; what = "2^32+8 bytes, U+1F600 starting 2^32+3 bytes before the end"; break;
   }
   beat("utf8", u);
   vf_cnt(VC_EVAL, 1);
@@ -243,6 +246,7 @@ static void utf8_unit(uint64_t u) {
     beat("utf8-load", u);
     uint8_t* in = region(zero_cap + 16);
     size_t hl = put_head(in, 3, len, 8);
+    if (u == 0) { in[hl + 8] = 0xc3; in[hl + 9] = 0xa9; }
     if (u == 1) { in[hl + G - 1] = 0xc3; in[hl + G] = 0xa9; }
     struct cbor_load_result res;
     va_reset();
@@ -261,7 +265,7 @@ static void utf8_unit(uint64_t u) {
   vf_cnt(VC_DISTINCT, 1);
   unregion(r, zero_cap);
 }
-#define NUNITS (vf_tier ? 4 : 2) /* quick: 2^32+1 valid bytes (attach + decode), and an invalid byte beyond 2^32 */
+#define NUNITS (vf_tier ? 6 : 2) /* quick: 2^32+8 valid bytes with a 2-byte scalar starting 2^32 bytes before the end (attach + decode), and an invalid byte beyond 2^32 */
 #define SCENARIO(s) utf8_unit(s)
 #define MAP(u) (vf_tier ? (u) : (u) * 2)
 #endif
